@@ -85,6 +85,7 @@ def register(reg):
     register_point_branch(reg)
     register_wrappers(reg)
     register_can_see_operator(reg)
+    register_view_regions(reg)
 
 
 # =================================================================================================
@@ -482,6 +483,7 @@ def register_wrappers(reg):
             me.fields.update(visibleDistance=D, viewRayCount=(7, 9), viewRayDensity=eng.fresh_real("self.viewRayDensity"), viewRayDistanceScaling=eng.fresh_bool("self.viewRayDistanceScaling"))
             if kind != "Point":
                 me.fields["viewAngles"] = (input_real(eng, "self.viewAngles.0", lo=0), input_real(eng, "self.viewAngles.1", lo=0))
+                me.fields["heading"] = input_real(eng, "self.heading")  # the yaw of the (3-D) orientation
             if kind == "Object":
                 me.fields["cameraOffset"] = input_vector(eng, "self.cameraOffset", I)
             other = PObj("Target", tag="other")
@@ -626,12 +628,213 @@ def replay_can_see_operator(inputs, clause):
         "b = new Object at (0, 10, 0), with requireVisible False, with allowCollisions True\n"
         "require {neg}(ego can see b)\n"
     )
-    for occ, visible in ((True, False), (False, True)):
-        sc = scenic.scenarioFromString(text.format(occ=occ, neg="" if visible else "not "), mode2D=False)
-        try:
-            sc.generate(maxIterations=3, verbosity=0)
-        except Exception as ex:
-            if type(ex).__name__ == "RejectionException":
-                return f"a wall with occluding={occ} between ego and b: `ego can see b` is {not visible}, expected {visible}"
-            raise
+    for tgt in ("b", "(0, 10, 0)"):
+        for occ, visible in ((True, False), (False, True)):
+            prog = text.format(occ=occ, neg="" if visible else "not ").replace("can see b", f"can see {tgt}")
+            if tgt != "b":  # a bare point as target: no object sits there (it would legitimately occlude the point)
+                prog = "\n".join(l for l in prog.splitlines() if not l.startswith("b = ")) + "\n"
+            sc = scenic.scenarioFromString(prog, mode2D=False)
+            try:
+                sc.generate(maxIterations=3, verbosity=0)
+            except Exception as ex:
+                if type(ex).__name__ == "RejectionException":
+                    return f"a wall with occluding={occ} between ego at (0,0,0) and the target at (0,10,0): `ego can see {tgt}` is {not visible}, expected {visible}"
+                raise
     return None
+
+
+# =================================================================================================
+# 5. visible regions: the region built has the viewer's camera position, orientation, distance and angles
+
+
+def register_view_regions(reg):
+    R = "scenic.core.regions"
+    BUILT = []
+
+    def region_ctor(kind):
+        def ctor(I, cls, args, kwargs):
+            o = PObj(cls, tag=kind)
+            o.kind, o.args, o.kwargs = kind, list(args), dict(kwargs)
+            o.fields.update(mesh=("mesh of", o), containsPoint=BuiltinFn("containsPoint", lambda p: True))
+
+            def intersect(other, **kw):
+                r = PObj(repo_class(f"{R}:MeshVolumeRegion"), tag="intersection")
+                r.kind, r.parts = "intersection", (o, other)
+                r.fields.update(mesh=("mesh of", r), containsPoint=BuiltinFn("containsPoint", lambda p: True))
+                return r
+
+            o.fields["intersect"] = BuiltinFn("intersect", intersect)
+            BUILT.append(o)
+            return o
+
+        return ctor
+
+    for kind in ("SpheroidRegion", "CylinderSectionRegion", "ViewSectionRegion", "ViewRegion"):
+        reg.constructors[f"{R}:{kind}"] = region_ctor(kind)
+    SUPER = []
+    reg.models[f"{R}:MeshVolumeRegion.__init__"] = lambda I, self, *a, **k: SUPER.append((self, a, k))
+    reg.trust("region constructors (visibility.py)", "SpheroidRegion / CylinderSectionRegion / ViewSectionRegion / ViewRegion / MeshVolumeRegion.__init__ and `intersect` are recorders: only the parameters handed over and the case split are checked, not the mesh geometry (C16/C04)")
+
+    def arg(o, name, pos):
+        return o.kwargs[name] if name in o.kwargs else (o.args[pos] if len(o.args) > pos else None)
+
+    # ---------------------------------------------------------------- Point / OrientedPoint / Object .visibleRegion
+    def make(kind):
+        name = f"object_types.{kind}.visibleRegion"
+
+        def setup(I, env):
+            eng = I.eng
+            WORLD.clear()
+            del BUILT[:]
+            me = make_point(I, "self", kind, dims=False)
+            me.fields["visibleDistance"] = input_real(eng, "self.visibleDistance", lo=0)
+            if kind != "Point":
+                me.fields["viewAngles"] = (input_real(eng, "self.viewAngles.0", lo=0), input_real(eng, "self.viewAngles.1", lo=0))
+                me.fields["heading"] = input_real(eng, "self.heading")
+            if kind == "Object":
+                me.fields["cameraOffset"] = input_vector(eng, "self.cameraOffset", I)
+            env.vars.update(self=me)
+
+        def post(I, env, outcome):
+            eng = I.eng
+            if outcome[0] != "return":
+                return
+            chk = lambda clause, goal: eng.check(f"{name}#ensures.{clause}", goal)
+            me, res = env.vars["self"], outcome[1]
+            D, P = rz(me.fields["visibleDistance"]), co(me.fields["position"])
+            if kind == "Point":
+                chk("is_a_sphere", getattr(res, "kind", None) == "SpheroidRegion")
+                if getattr(res, "kind", None) != "SpheroidRegion":
+                    return
+                chk("centred_at_the_position", eq3(co(arg(res, "position", 0)), P))
+                dims = [rz(d) for d in I.iterate(arg(res, "dimensions", 1))]
+                # "a sphere centered at its position with radius visibleDistance": every extent (diameter) is 2 * visibleDistance
+                chk("radius_is_the_visible_distance", z3.And(len(dims) == 3, *[d == 2 * D for d in dims]))
+                return
+            chk("is_a_view_region", getattr(res, "kind", None) == "ViewRegion")
+            if getattr(res, "kind", None) != "ViewRegion":
+                return
+            want = P if kind != "Object" else [a + b for a, b in zip(P, apply3(rot(me.fields["orientation"]), co(me.fields["cameraOffset"])))]
+            chk("apex_is_the_camera_position", eq3(co(arg(res, "position", 3)), want))
+            chk("oriented_like_the_viewer", arg(res, "rotation", 4) is me.fields["orientation"])
+            chk("visible_distance_passed_unchanged", arg(res, "visibleDistance", 0) is me.fields["visibleDistance"])
+            va = arg(res, "viewAngles", 1)
+            chk("view_angles_passed_unchanged", va[0] is me.fields["viewAngles"][0] and va[1] is me.fields["viewAngles"][1])
+
+        def replay(inputs, clause):
+            import numpy as np
+
+            import scenic.core.object_types as ot
+            from scenic.core.vectors import Orientation, Vector
+
+            P = _f3(inputs, "self.position", [1, 2, 3])
+            off = [_clamp(c, -5, 5) for c in inputs.get("self.cameraOffset", [0.5, 1.0, 0.25])]
+            D = _clamp(float(inputs.get("self.visibleDistance", 20.0)) or 20.0, 1.0, 200.0)
+            if kind == "Point":
+                me = ot.Point._with(position=Vector(*P), visibleDistance=D)
+                for frac, want in ((0.75, True), (1.25, False)):
+                    t = Vector(P[0], P[1] + frac * D, P[2])
+                    if bool(me.visibleRegion.containsPoint(t)) != want:
+                        return f"Point at {P} with visibleDistance {D}: the point {frac} * visibleDistance away is {'not ' if want else ''}in its visibleRegion (canSee says {bool(me.canSee(t))})"
+                return None
+            for e in ([ROTATION_CATALOGUE[1], ROTATION_CATALOGUE[5]] if clause == "*" else ROTATION_CATALOGUE):
+                o = Orientation.fromEuler(*e)
+                kw = dict(position=Vector(*P), parentOrientation=o, visibleDistance=D, viewAngles=(1.0, 0.8))
+                me = ot.OrientedPoint._with(**kw) if kind == "OrientedPoint" else ot.Object._with(cameraOffset=Vector(*off), **kw)
+                cam = np.array(P) + (o.getRotation().apply(np.array(off)) if kind == "Object" else 0)
+                for local, want in (((0, 0.5 * D, 0), True), ((0, -0.5 * D, 0), False), ((0.5 * D * math.sin(0.3), 0.5 * D * math.cos(0.3), 0), True), ((0.5 * D * math.sin(0.8), 0.5 * D * math.cos(0.8), 0), False)):
+                    t = Vector(*(cam + o.getRotation().apply(np.array(local))))
+                    if bool(me.visibleRegion.containsPoint(t)) != want:
+                        return f"{kind} at {P} facing {e} (cameraOffset {off if kind == 'Object' else None}, viewAngles (1.0, 0.8), visibleDistance {D}): the point at local offset {local} from the camera is {'not ' if want else ''}in its visibleRegion"
+            return None
+
+        reg.add(C.Contract(f"{OT}:{kind}.visibleRegion", params={}, setup=setup, post=post, inline_all=True, replay=replay, properties=("C17",)))
+
+    for kind in ("Point", "OrientedPoint", "Object"):
+        make(kind)
+
+    # ---------------------------------------------------------------- ViewRegion.__init__: the documented case split
+    nameV = "regions.ViewRegion.__init__"
+    CUT = 0.017
+
+    def setup_v(I, env):
+        eng = I.eng
+        WORLD.clear()
+        del BUILT[:]
+        del SUPER[:]
+        me = PObj(repo_class(f"{R}:ViewRegion"), tag="self")
+        D = input_real(eng, "visibleDistance", lo=0)
+        h, v = input_real(eng, "viewAngles.0"), input_real(eng, "viewAngles.1")
+        eng.assume(z3.And(rz(h) <= TAU, rz(v) <= PI))
+        pos = input_vector(eng, "position", I)
+        t_ = OrientationT(axioms=())
+        o = t_.fresh(eng, "rotation", I)
+        env.vars.update(self=me, visibleDistance=D, viewAngles=(h, v), name=None, position=pos, rotation=o)
+
+    def post_v(I, env, outcome):
+        eng = I.eng
+        chk = lambda clause, goal: eng.check(f"{nameV}#ensures.{clause}", goal)
+        h, v, D = rz(env.vars["viewAngles"][0]), rz(env.vars["viewAngles"][1]), rz(env.vars["visibleDistance"])
+        cut = G._rat(CUT)
+        if outcome[0] != "return":
+            return
+        chk("initialises_the_mesh_region_once", len(SUPER) == 1 and SUPER[0][0] is env.vars["self"])
+        if len(SUPER) != 1:
+            return
+        kw = SUPER[0][2]
+        chk("placed_at_the_given_position_with_the_given_rotation", kw.get("position") is env.vars["position"] and kw.get("rotation") is env.vars["rotation"] and kw.get("centerMesh") is False)
+        shape = kw.get("mesh")[1] if isinstance(kw.get("mesh"), tuple) else None
+        chk("mesh_is_the_mesh_of_a_constructed_shape", shape is not None)
+        if shape is None:
+            return
+        sphere = shape if getattr(shape, "kind", None) == "SpheroidRegion" else (shape.parts[0] if getattr(shape, "kind", None) == "intersection" else None)
+        chk("built_from_a_sphere", getattr(sphere, "kind", None) == "SpheroidRegion")
+        if getattr(sphere, "kind", None) == "SpheroidRegion":
+            dims = [rz(d) for d in I.iterate(arg(sphere, "dimensions", 1))]
+            chk("sphere_radius_is_the_visible_distance", z3.And(len(dims) == 3, *[d == 2 * D for d in dims]))
+        # documented cases (angles within `angleCutoff` of 360 / 180 degrees count as 360 / 180 degrees)
+        full_h, full_v = h >= TAU - cut, v >= PI - cut
+        eff_h = z3.If(full_h, TAU, z3.If(h >= cut, h, cut))
+        eff_v = z3.If(full_v, PI, z3.If(v >= cut, v, cut))
+        if shape is sphere:
+            chk("whole_sphere_only_for_a_full_view", z3.And(full_h, full_v))
+        else:
+            other = shape.parts[1]
+            if getattr(other, "kind", None) == "CylinderSectionRegion":
+                chk("cylinder_section_only_for_full_vertical_but_partial_horizontal_view", z3.And(full_v, z3.Not(full_h)))
+                chk("cylinder_section_has_the_distance_and_horizontal_angle", z3.And(rz(other.args[0]) == D, rz(other.args[1]) == eff_h))
+            elif getattr(other, "kind", None) == "ViewSectionRegion":
+                chk("pyramid_section_only_for_a_partial_vertical_view", z3.Not(full_v))
+                va = other.args[1]
+                chk("pyramid_section_has_the_distance_and_both_angles", z3.And(rz(other.args[0]) == D, rz(va[0]) == eff_h, rz(va[1]) == eff_v))
+            else:
+                chk("intersected_with_a_documented_section", False)
+
+    def replay_v(inputs, clause):
+        import numpy as np
+
+        from scenic.core.regions import ViewRegion
+        from scenic.core.vectors import Orientation, Vector
+
+        D = _clamp(float(inputs.get("visibleDistance", 20.0)) or 20.0, 1.0, 200.0)
+        h, v = _clamp(inputs.get("viewAngles.0", 1.0), 0.2, math.tau), _clamp(inputs.get("viewAngles.1", 0.8), 0.2, math.pi)
+        P = _f3(inputs, "position", [1, 2, 3])
+        for h, v in ((h, v), (math.tau, math.pi), (2.0, math.pi), (1.0, 0.8), (4.0, 1.0)):
+            o = Orientation.fromEuler(*ROTATION_CATALOGUE[5])
+            reg_ = ViewRegion(D, (h, v), position=Vector(*P), rotation=o)
+            tests = [((0, 0.5 * D, 0), True), ((0, 1.3 * D, 0), False)]
+            if h < math.tau - 0.2:
+                a_in, a_out = h / 2 - 0.1, h / 2 + 0.1
+                tests += [((-0.5 * D * math.sin(a_in), 0.5 * D * math.cos(a_in), 0), True), ((-0.5 * D * math.sin(a_out), 0.5 * D * math.cos(a_out), 0), False)]
+            if v < math.pi - 0.2:
+                b_in, b_out = v / 2 - 0.1, v / 2 + 0.1
+                tests += [((0, 0.5 * D * math.cos(b_in), 0.5 * D * math.sin(b_in)), True), ((0, 0.5 * D * math.cos(b_out), 0.5 * D * math.sin(b_out)), False)]
+            for local, want in tests:
+                t = Vector(*(np.array(P) + o.getRotation().apply(np.array(local))))
+                if bool(reg_.containsPoint(t)) != want:
+                    return f"ViewRegion({D}, ({h:.4g}, {v:.4g})) at {P}: the point at local offset {tuple(round(c, 3) for c in local)} is {'not ' if want else ''}contained"
+        return None
+
+    reg.add(
+        C.Contract(f"{R}:ViewRegion.__init__", params={}, setup=setup_v, post=post_v, inline_all=True, replay=replay_v, raises=[C.Raises("ValueError", when="min(viewAngles) <= 0", mode="iff")], properties=("C17",))
+    )
